@@ -321,6 +321,70 @@ macro_rules! body {
                 let b: Vec<i64> = (0..bl).map(|i| (i as i64 * 7919 + 13) % 1000 - 500).collect();
                 $go(module.glwe_mul_const_tmp_bytes(&lr, &la, bl), &mut |s: &mut Scratch<$T>| {
                     let mut r = r0.clone(); module.glwe_mul_const(off, &mut r, &a, &b, s); r.data().data.clone() }) }
+            120 => { // gglwe_prepare [be n | key(6)]
+                let lk = gglwe_l(n, &p[2..8]);
+                let mut key = GGLWE::alloc_from_infos(&lk); key.fill_uniform(u(p[2]), &mut src(90));
+                let mut kp = module.gglwe_prepared_alloc_from_infos(&lk);
+                // GGLWEPrepared has no public data accessor: the prepared key is observed through a key-switch that uses it
+                let la = GLWELayout { n: lk.n, base2k: lk.base2k, k: lk.k, rank: lk.rank_in };
+                let lr = GLWELayout { n: lk.n, base2k: lk.base2k, k: lk.k, rank: lk.rank_out };
+                let mut a = GLWE::alloc_from_infos(&la); a.fill_uniform(u(p[2]), &mut src(98));
+                let mut sb = big(module.glwe_keyswitch_tmp_bytes(&lr, &la, &lk));
+                $go(module.gglwe_prepare_tmp_bytes(&lk), &mut |s: &mut Scratch<$T>| {
+                    module.gglwe_prepare(&mut kp, &key, s);
+                    let mut r = GLWE::alloc_from_infos(&lr); module.glwe_keyswitch(&mut r, &a, &kp, sb.borrow()); r.data().data.clone() }) }
+            121 => { // ggsw_prepare [be n | ggsw(6)]
+                let lg = ggsw_l(n, &p[2..8]);
+                let mut g = GGSW::alloc_from_infos(&lg); g.fill_uniform(u(p[2]), &mut src(91));
+                let mut gp = module.ggsw_prepared_alloc_from_infos(&lg);
+                $go(module.ggsw_prepare_tmp_bytes(&lg), &mut |s: &mut Scratch<$T>| {
+                    module.ggsw_prepare(&mut gp, &g, s); gp.data().data().as_ref().to_vec() }) }
+            122 => { // gglwe_keyswitch [be n | res gglwe(6) a gglwe(6) key(6)]
+                let (lr, la, lk) = (gglwe_l(n, &p[2..8]), gglwe_l(n, &p[8..14]), gglwe_l(n, &p[14..20]));
+                let mut key = GGLWE::alloc_from_infos(&lk); key.fill_uniform(u(p[14]), &mut src(92));
+                let mut kp = module.gglwe_prepared_alloc_from_infos(&lk);
+                let mut sb = big(module.gglwe_prepare_tmp_bytes(&lk)); module.gglwe_prepare(&mut kp, &key, sb.borrow());
+                let mut a = GGLWE::alloc_from_infos(&la); a.fill_uniform(u(p[8]), &mut src(93));
+                let mut r0 = GGLWE::alloc_from_infos(&lr); r0.fill_uniform(u(p[2]), &mut src(94));
+                $go(module.gglwe_keyswitch_tmp_bytes(&lr, &la, &lk), &mut |s: &mut Scratch<$T>| {
+                    let mut r = r0.clone(); module.gglwe_keyswitch(&mut r, &a, &kp, s); r.data().data().clone() }) }
+            123 | 124 => { // gglwe_external_product [res gglwe(6) a gglwe(6) ggsw(6)] / ggsw_external_product [res ggsw(6) a ggsw(6) ggsw(6)]
+                let lg = ggsw_l(n, &p[14..20]);
+                let mut g = GGSW::alloc_from_infos(&lg); g.fill_uniform(u(p[14]), &mut src(95));
+                let mut gp = module.ggsw_prepared_alloc_from_infos(&lg);
+                let mut sb = big(module.ggsw_prepare_tmp_bytes(&lg)); module.ggsw_prepare(&mut gp, &g, sb.borrow());
+                if $op == 123 {
+                    let (lr, la) = (gglwe_l(n, &p[2..8]), gglwe_l(n, &p[8..14]));
+                    let mut a = GGLWE::alloc_from_infos(&la); a.fill_uniform(u(p[8]), &mut src(96));
+                    let mut r0 = GGLWE::alloc_from_infos(&lr); r0.fill_uniform(u(p[2]), &mut src(97));
+                    $go(module.gglwe_external_product_tmp_bytes(&lr, &la, &lg), &mut |s: &mut Scratch<$T>| {
+                        let mut r = r0.clone(); module.gglwe_external_product(&mut r, &a, &gp, s); r.data().data().clone() })
+                } else {
+                    let (lr, la) = (ggsw_l(n, &p[2..8]), ggsw_l(n, &p[8..14]));
+                    let mut a = GGSW::alloc_from_infos(&la); a.fill_uniform(u(p[8]), &mut src(96));
+                    let mut r0 = GGSW::alloc_from_infos(&lr); r0.fill_uniform(u(p[2]), &mut src(97));
+                    $go(module.ggsw_external_product_tmp_bytes(&lr, &la, &lg), &mut |s: &mut Scratch<$T>| {
+                        let mut r = r0.clone(); module.ggsw_external_product(&mut r, &a, &gp, s);
+                        let mut o = Vec::new();
+                        for i in 0..u(p[6]) { for j in 0..u(p[4]) + 1 { o.extend_from_slice(r.at(i, j).data().data); } }
+                        o })
+                } }
+            125 => { // glwe_mul_plain (oracle only) [be n | res(6) a(6) b(6) cnv_offset]
+                let (lr, la, lb) = (glwe_l(n, &p[2..8]), glwe_l(n, &p[8..14]), glwe_l(n, &p[14..20])); let off = u(p[20]);
+                let mut a = GLWE::alloc_from_infos(&la); a.fill_uniform(u(p[8]), &mut src(100));
+                let mut b = GLWEPlaintext::alloc_from_infos(&lb); module.vec_znx_fill_uniform(u(p[14]), &mut b.data, 0, &mut src(101));
+                let mut r0 = GLWE::alloc_from_infos(&lr); r0.fill_uniform(u(p[2]), &mut src(102));
+                let (ak, bk) = (u(p[9]), u(p[15]));
+                $go(module.glwe_mul_plain_tmp_bytes(&lr, &la, &lb), &mut |s: &mut Scratch<$T>| {
+                    let mut r = r0.clone(); module.glwe_mul_plain(off, &mut r, &a, ak, &b, bk, s); r.data().data.clone() }) }
+            126 => { // glwe_tensor_apply (oracle only) [be n | res(6) a(6) b(6) cnv_offset]
+                let (lr, la, lb) = (glwe_l(n, &p[2..8]), glwe_l(n, &p[8..14]), glwe_l(n, &p[14..20])); let off = u(p[20]);
+                let mut a = GLWE::alloc_from_infos(&la); a.fill_uniform(u(p[8]), &mut src(103));
+                let mut b = GLWE::alloc_from_infos(&lb); b.fill_uniform(u(p[14]), &mut src(104));
+                let mut r = GLWETensor::alloc_from_infos(&lr);
+                let (ak, bk) = (u(p[9]), u(p[15]));
+                $go(module.glwe_tensor_apply_tmp_bytes(&lr, &la, &lb), &mut |s: &mut Scratch<$T>| {
+                    module.glwe_tensor_apply(off, &mut r, &a, ak, &b, bk, s); r.data().data.clone() }) }
             other => panic!("c12: unknown op {}", other),
         }
     }};
@@ -383,10 +447,12 @@ fn min_n(op: i64, fft: bool) -> i128 {
     match op {
         11..=14 | 21 => 2,
         30 | 31 | 32 => if fft { 8 } else { 2 }, // NTT120 vmp works on x2 blocks (debug_assert!(n >= 2)); FFT64 on blocks of 4 complex
-        40 | 50..=53 | 55 => if fft { 2 } else { 1 },
+        40 | 50..=52 => if fft { 2 } else { 1 },
+        53 | 55 => 2, // NTT120 convolution kernels work on x2 blocks (n / 2 of them)
         103 | 105 | 118 => if fft { 2 } else { 1 },
         104 => 8, // glwe_public_key_generate (set-up of the record) itself allocates glwe_encrypt_sk_tmp_bytes and panics below 8
-        106..=109 => if fft { 8 } else { 2 },
+        106..=109 | 120..=124 => if fft { 8 } else { 2 },
+        125 | 126 => 2,
         110..=112 => if fft { 8 } else { 2 },
         115 => 2,
         _ => 1,
@@ -483,6 +549,14 @@ pub fn generate(tier: &str, seed: u64) -> Vec<Rec> {
                 let mut ps = vec![be, n];
                 ps.extend(&inf(rb, rk, rout, rout, 0, 1)); ps.extend(&inf(ab, ak, rin, rin, 0, 1)); ps.extend(&inf(kb, kk, rout, rin, dnum, dsize));
                 if ok(106) { g.push(106, ps.clone(), dense_core, true); }
+                if ok(120) {
+                    // matrix forms: res / a are GGLWEs with 2 rows, rank_in 1, of the radix of `a` (res.base2k == a.base2k is required)
+                    let mut pk = vec![be, n]; pk.extend(&inf(kb, kk, rout, rin, dnum, dsize));
+                    g.push(120, pk, dense_core, true);
+                    let mut pm = vec![be, n];
+                    pm.extend(&inf(ab, ak + 2 * ab, rout, 1, 2, 1)); pm.extend(&inf(ab, ak + 2 * ab, rin, 1, 2, 1)); pm.extend(&inf(kb, kk, rout, rin, dnum, dsize));
+                    g.push(122, pm, dense_core && n <= 16, true);
+                }
                 if rin == rout {
                     if ok(107) { g.push(107, ps.clone(), dense_core, true); }
                     if ok(110) {
@@ -499,12 +573,30 @@ pub fn generate(tier: &str, seed: u64) -> Vec<Rec> {
                         g.push(108, pe.clone(), dense_core, true);
                         g.push(109, pe, dense_core, true);
                     }
+                    if ok(121) {
+                        let gg = inf(kb, kk, rout, rout, dnum, dsize);
+                        let mut pg = vec![be, n]; pg.extend(&gg);
+                        g.push(121, pg, dense_core, true);
+                        let mut p3 = vec![be, n];
+                        p3.extend(&inf(ab, ak + 2 * ab, rout, 1, 2, 1)); p3.extend(&inf(ab, ak + 2 * ab, rout, 1, 2, 1)); p3.extend(&gg);
+                        g.push(123, p3, dense_core && n <= 16, true);
+                        let mut p4 = vec![be, n];
+                        p4.extend(&inf(ab, ak + 2 * ab, rout, rout, 2, 1)); p4.extend(&inf(ab, ak + 2 * ab, rout, rout, 2, 1)); p4.extend(&gg);
+                        g.push(124, p4, dense_core && n <= 16, true);
+                    }
                 }
             }
             for &(rb, rk, ab, ak, bl, off) in &[(17i128, 34i128, 17i128, 34i128, 1i128, 0i128), (17, 51, 17, 34, 2, 17), (17, 51, 15, 45, 3, 40), (12, 36, 12, 36, 2, 0)] {
                 let mut ps = vec![be, n];
                 ps.extend(&inf(rb, rk, 1, 1, 0, 1)); ps.extend(&inf(ab, ak, 1, 1, 0, 1)); ps.push(bl); ps.push(off);
                 g.push(116, ps, dense_core, true);
+                // oracle-only (no take tree): glwe_mul_plain, glwe_tensor_apply
+                if ok(125) {
+                    let mut q = vec![be, n];
+                    q.extend(&inf(rb, rk, 1, 1, 0, 1)); q.extend(&inf(ab, ak, 1, 1, 0, 1)); q.extend(&inf(ab, ak, 1, 1, 0, 1)); q.push(off);
+                    g.push(125, q.clone(), dense_core, false);
+                    g.push(126, q, dense_core, false);
+                }
             }
         }
     }
